@@ -19,7 +19,7 @@ def sweep(path_filter, only=None):
             continue
         if only and pid not in only:
             continue
-        wt = f"/tmp/t2sweep_{pid}"
+        wt = os.environ.get("SWEEP_PREFIX", "/tmp/t2sweep_") + pid
         subprocess.run(["git", "-C", "/repo", "worktree", "remove", "--force", wt], capture_output=True)
         subprocess.run(["git", "-C", "/repo", "worktree", "add", "--detach", wt, "HEAD"], capture_output=True, check=True)
         try:
